@@ -1,3 +1,4 @@
 import Model.Bytes
 import Model.Data
 import Model.Reply
+import Model.Proxy
